@@ -1,6 +1,7 @@
 package main
 
 import (
+	authtypes "github.com/cosmos/cosmos-sdk/x/auth/types"
 	sdkmath "cosmossdk.io/math"
 	sdk "github.com/cosmos/cosmos-sdk/types"
 
@@ -91,10 +92,28 @@ func (a *LevLPAgent) Step(s *Sim) {
 			lev := decFromFloat(1.1 + r.Float64()*9)
 			if r.Float64() < 0.1 {
 				lev = sdkmath.LegacyNewDec(1) // add collateral to an existing position (consolidation with leverage 1)
+			} else if r.Float64() < 0.06 {
+				// a hair above 1: the loan truncates to nothing, the position is debt-free
+				lev = sdkmath.LegacyOneDec().Add(sdkmath.LegacyNewDecWithPrec(1, int64(6+r.IntN(12))))
+				s.Stats.Probe("levlp_open_with_vanishing_loan_submitted")
 			}
 			coll := s.uniq(logUniform(r, 1e4, 5e9))
 			if r.Float64() < 0.05 {
 				coll = sdkmath.NewInt(int64(1 + r.IntN(50)))
+			}
+			// edge opens: sized so that the loan lands around what the vault can still lend
+			// (utilisation limits of leveragelp and the vault's own cap are approached from both sides)
+			if r.IntN(5) == 0 && lev.GT(sdkmath.LegacyOneDec()) {
+				sp := s.N0.App.StablestakeKeeper.GetParams(ctx)
+				cash := s.N0.App.BankKeeper.GetBalance(ctx, authtypes.NewModuleAddress(stablestaketypes.ModuleName), DenomUSDC).Amount
+				room := sp.TotalValue.MulRaw(9).QuoRaw(10).Sub(sp.TotalValue.Sub(cash))
+				if room.IsPositive() {
+					target := sdkmath.LegacyNewDecFromInt(room).Mul(decFromFloat(0.5 + r.Float64()*0.7))
+					if c := target.Quo(lev.Sub(sdkmath.LegacyOneDec())).TruncateInt(); c.IsPositive() {
+						coll = s.uniq(c)
+						s.Stats.Probe("levlp_open_sized_against_vault_room_submitted")
+					}
+				}
 			}
 			sl := sdkmath.LegacyZeroDec()
 			if r.Float64() < 0.4 {
@@ -131,8 +150,19 @@ func (a *LevLPAgent) Step(s *Sim) {
 				continue
 			}
 			s.SendTx(u, "levlp/update_sl", &leveragelptypes.MsgUpdateStopLoss{Creator: u.Addr.String(), Position: pos.Id, Price: price.Mul(decFromFloat(0.8 + r.Float64()*0.3))})
-		default:
+		case act < 9:
 			s.SendTx(u, "levlp/claim", &leveragelptypes.MsgClaimRewards{Sender: u.Addr.String(), Ids: []uint64{pos.Id}})
+		default:
+			// the owner names its own position in the permissionless close-positions message
+			// (a way round the lock-up and the close rules if the handler lets it through)
+			req := &leveragelptypes.PositionRequest{Address: u.Addr.String(), Id: pos.Id}
+			msg := &leveragelptypes.MsgClosePositions{Creator: u.Addr.String()}
+			if r.IntN(2) == 0 {
+				msg.Liquidate = []*leveragelptypes.PositionRequest{req}
+			} else {
+				msg.StopLoss = []*leveragelptypes.PositionRequest{req}
+			}
+			s.SendTx(u, "levlp/self_close_positions", msg)
 		}
 	}
 }
@@ -190,6 +220,22 @@ func (a *PerpAgent) Step(s *Sim) {
 			}
 			// collateral in USD terms 0.01 .. 20000
 			usd := logUniform(r, 1e4, 2e10)
+			// edge opens: as much leverage as the parameters allow, sized against the pool's depth
+			// (price impact, pool-health and position-health limits are reached from the inside)
+			if r.IntN(4) == 0 {
+				if mx := k.GetParams(ctx).LeverageMax; !mx.IsNil() && mx.GT(sdkmath.LegacyOneDec()) && !lev.IsZero() {
+					lev = mx.Mul(decFromFloat(0.85 + r.Float64()*0.15))
+					s.Stats.Probe("perp_open_near_max_leverage_submitted")
+				}
+			}
+			if r.IntN(4) == 0 {
+				for _, pa := range ammPool.PoolAssets {
+					if pa.Token.Denom == DenomUSDC && pa.Token.Amount.IsPositive() {
+						usd = sdkmath.LegacyNewDecFromInt(pa.Token.Amount).Mul(decFromFloat(0.003 + r.Float64()*0.12)).TruncateInt()
+						s.Stats.Probe("perp_open_sized_against_pool_submitted")
+					}
+				}
+			}
 			coll := usd
 			if collDenom != DenomUSDC {
 				as := assetByDenom(collDenom)
@@ -222,6 +268,16 @@ func (a *PerpAgent) Step(s *Sim) {
 		price, err := k.GetAssetPrice(ctx, m.TradingAsset)
 		if err != nil {
 			price = sdkmath.LegacyOneDec()
+		}
+		// a position drifting towards liquidation: the owner tops it up with a token amount that
+		// cannot really rescue it (the re-open's health check is exercised right at the limit)
+		if ammPool, err := k.GetAmmPool(ctx, m.AmmPoolId); err == nil {
+			if h, err := k.GetMTPHealth(ctx, m, ammPool, DenomUSDC); err == nil && h.LT(k.GetParams(ctx).SafetyFactor.Mul(decFromFloat(1.25))) && r.IntN(2) == 0 {
+				s.Stats.Probe("perp_token_topup_near_liquidation_submitted")
+				s.SendTx(u, "perp/topup_near_liquidation", &perpetualtypes.MsgOpen{Creator: u.Addr.String(), Position: m.Position, Leverage: sdkmath.LegacyZeroDec(), TradingAsset: m.TradingAsset,
+					Collateral: sdk.NewCoin(m.CollateralAsset, s.uniq(sdkmath.NewInt(int64(1+r.IntN(2000))))), TakeProfitPrice: m.TakeProfitPrice, StopLossPrice: sdkmath.LegacyZeroDec(), PoolId: m.AmmPoolId})
+				continue
+			}
 		}
 		switch {
 		case act < 7:
